@@ -2,7 +2,7 @@
    Gallina program Brotli.Spec.brotli_prog, for every static dictionary
    [dict_byte]; brotli.Reader is tied to it by correspondence on every run
    and both are compared with libbrotli. *)
-From V Require Import Base.Prelude Base.Prog Base.ProgThms Brotli.Tables Brotli.Spec Brotli.Thms.
+From V Require Import Base.Prelude Base.Prog Base.ProgThms Brotli.Tables Brotli.Spec Brotli.Thms Brotli.Safe Brotli.Fuel.
 
 (* the decoder looks at its source only bit by bit, in order *)
 Theorem brotli_decoder_is_local : forall dict inbits, eof_free (brotli_prog dict inbits).
@@ -36,3 +36,17 @@ Proof.
   exact (conj ins_ranges_go (conj cpy_ranges_go (conj blk_ranges_go (conj clen_order_go dict_offsets_go)))).
 Qed.
 Print Assumptions brotli_rfc_tables_eq_impl.
+
+(* TOTALITY of the RFC 7932 decoder model, for every static dictionary and every input:
+   success, UnexpectedEOF or Corrupted - never a panic (window copy out of range), never an
+   exhausted loop budget. The command loop needs a real argument: a command may consume no
+   input bit at all, progress then lies in the bytes it produces, and a dictionary word can
+   be empty only for transforms that a zero-bit distance cannot reach (invariant: the last
+   distances never exceed max 16 (min window bytes_produced)). *)
+Theorem brotli_decoder_total : forall dict input,
+  match br_err (brotli_decode dict input) with
+  | None => True
+  | Some e => e = EUEOF \/ e = ECorrupted
+  end.
+Proof. exact brotli_decode_total. Qed.
+Print Assumptions brotli_decoder_total.
